@@ -23,6 +23,11 @@ func (h Handle) Validate(needCollection bool) error {
 		return fmt.Errorf("missing database in handle")
 	}
 
+	// a dot separates database and collection in stored namespace names
+	if strings.Contains(h[0], ".") {
+		return fmt.Errorf("database name cannot contain a dot")
+	}
+
 	// check collection
 	if needCollection && h[1] == "" {
 		return fmt.Errorf("missing collection in handle")
